@@ -242,6 +242,24 @@ def run(ctx):
     for hc in calls_to(lin.node, {"hypotest"}):
         _check_hypotest_call(ctx, r3, lin, hc, lin.node, "linear_grid_scan", comp_var=True)
 
+    r5 = ctx.rule(
+        "C09.R5",
+        "GRID (interpreted): linear_grid_scan on a 4-point grid of symbolic POI values with recorded hypotest results "
+        "(observed curve crossing the level LATER than the +2 sigma band): hypotest is evaluated once per grid point "
+        "with the caller's data, model and options; each of the six curves is inverted by interp(level, ALL of its "
+        "values, ALL grid points), reversed together; with return_results the third element is (the grid, the results)",
+        "GRID", floor=2,
+    )
+    r6 = ctx.rule(
+        "C09.R6",
+        "AUTO (interpreted): upper_limit without a grid, down to toms748_scan: every hypotest evaluation receives the "
+        "caller's data, model and ALL caller options (par_bounds, test_stat, calctype ...); the observed root is "
+        "bracketed by the POI bounds and solved for (level, 0), the expected ones for (level, 1..5); a SECOND call after "
+        "the data list was refilled in place evaluates hypotest afresh on the current data",
+        "AUTO", floor=2,
+    )
+    _interpreted(ctx, r5, r6, repo)
+
     # ---------------- R4 ------------------------------------------------
     r4 = ctx.rule(
         "C09.R4",
@@ -373,3 +391,178 @@ def _check_hypotest_call(ctx, rid, owner, hc, fn, label, comp_var=False):
         ctx.violated(rid, owner, hc, "caller's hypotest options (**hypotest_kwargs) are not forwarded to hypotest", expected="**hypotest_kwargs", node=hc)
     if ok:
         ctx.holds(rid, site, "poi, data, model, return_expected_set=True, **hypotest_kwargs")
+
+
+def _interpreted(ctx, r5, r6, repo):
+    from fractions import Fraction as F_
+    from .. import listnp
+    from ..alg import AutoRegion, Closure, NotHandled, PyFunc
+    from ..objmodel import World
+    lin, toms, ul = repo.func(UL, "linear_grid_scan"), repo.func(UL, "toms748_scan"), repo.func(UL, "upper_limit")
+    at = Poly.atom
+    errs = (Undecided, KeyError, TypeError, ValueError, IndexError, AttributeError)
+
+    def mk_world(region, rec, cls_of):
+        ext = listnp.externals()
+
+        def hypotest(a, k):
+            poi = to_poly(a[0])
+            tag = str(poi)
+            rec["hypotest"].append({"poi": tag, "data": a[1] if len(a) > 1 else k.get("data"), "data_content": [str(to_poly(x)) for x in (a[1] if len(a) > 1 else [])] if isinstance(a[1] if len(a) > 1 else None, list) else None, "model": a[2] if len(a) > 2 else k.get("model"), "kw": dict(k)})
+            vals = cls_of(poi)
+            names = [f"cls{j}<{tag}>" for j in range(6)]
+            for n_, v_ in zip(names, vals):
+                region[n_] = v_
+            return (at(names[0]), [at(n_) for n_ in names[1:]])
+
+        def np_interp(a, k):
+            rec["interp"].append(([str(to_poly(a[0]))], [str(to_poly(x)) for x in a[1]], [str(to_poly(x)) for x in a[2]]))
+            return at(f"LIMIT{len(rec['interp']) - 1}")
+
+        def toms748(a, k):
+            f, lo, hi = a[0], a[1], a[2]
+            args = list(k.get("args", ()))
+            rec["toms748"].append({"bracket": (str(to_poly(lo)), str(to_poly(hi))), "args": [str(to_poly(x)) for x in args], "xtol": k.get("xtol"), "rtol": k.get("rtol")})
+            if isinstance(f, Closure):
+                for x in (lo, hi):
+                    f.interp.call_function(f.node, [x] + args, {})
+            return at(f"ROOT{len(rec['toms748']) - 1}")
+
+        def num(v):
+            return to_poly(v).evalf(region)
+
+        def arg_best(a, k, best):
+            vals = [num(x) for x in a[0]]
+            if not vals:
+                raise Undecided("argmin/argmax of an empty selection")
+            return Poly.const(vals.index(best(vals)))
+
+        ext.update({
+            "hypotest": hypotest, "interp": np_interp, "toms748": toms748,
+            "get_backend": lambda a, k: (Obj("tb"), None),
+            "any": lambda a, k: any((x if isinstance(x, bool) else Interp({}, {}, region).truth(x)) for x in listnp._flatten(a[0])),
+            "argmin": lambda a, k: arg_best(a, k, min), "argmax": lambda a, k: arg_best(a, k, max),
+        })
+        menv = {"np": Obj("np"), "log": Obj("log")}
+        for st_ in repo.module(UL).tree.body:  # module-level containers are state shared between calls
+            if isinstance(st_, ast.Assign) and len(st_.targets) == 1 and isinstance(st_.targets[0], ast.Name):
+                v_ = st_.value
+                if (isinstance(v_, ast.Dict) and not v_.keys) or (isinstance(v_, ast.Call) and not v_.args and (A.call_attr(v_) or "").lower().endswith(("dict", "dictionary"))):
+                    menv[st_.targets[0].id] = {}
+                elif isinstance(v_, (ast.List, ast.Set)) and not v_.elts:
+                    menv[st_.targets[0].id] = []
+        w = World(ext, region=region, module_env=menv)
+        for q, f in repo.module(UL).funcs.items():
+            if "." not in q:
+                w.add_func(f)
+        return w
+
+    # ---------------------------------------------------------------- grid
+    obs_curve = {0: F_(9, 10), 1: F_(1, 2), 2: F_(1, 5), 3: F_(1, 100)}
+    band = {0: [F_(4, 5), F_(3, 4), F_(7, 10), F_(3, 5), F_(1, 2)], 1: [F_(2, 5), F_(3, 10), F_(1, 5), F_(1, 10), F_(1, 25)], 2: [F_(1, 10), F_(2, 25), F_(3, 50), F_(1, 50), F_(1, 100)], 3: [F_(1, 200), F_(1, 250), F_(1, 300), F_(1, 400), F_(1, 1000)]}
+    for rr in (True, False):
+        rec = {"hypotest": [], "interp": [], "toms748": []}
+        region = AutoRegion()
+        for i in range(4):
+            region[f"x{i}"] = F_(i)
+        region["LEVEL"] = F_(1, 20)
+
+        def cls_of(poi, region=region):
+            i = int(poi.evalf(region))
+            return [obs_curve[i]] + band[i]
+
+        site = f"{UL}::linear_grid_scan [interpreted, return_results={rr}]"
+        try:
+            w = mk_world(region, rec, cls_of)
+            DATA, MODEL = Obj("DATA"), Obj("MODEL")
+            scan = listnp.T([at(f"x{i}") for i in range(4)])
+            out = w.call_func(lin, [DATA, MODEL, scan, at("LEVEL"), rr], {"test_stat": "q", "par_bounds": Obj("PB")})
+            probs = []
+            if [h["poi"] for h in rec["hypotest"]] != [f"x{i}" for i in range(4)]:
+                probs.append(f"hypotest evaluated at {[h['poi'] for h in rec['hypotest']]}, the grid is x0..x3")
+            for h in rec["hypotest"]:
+                if h["data"] is not DATA or h["model"] is not MODEL or h["kw"].get("return_expected_set") is not True or h["kw"].get("test_stat") != "q" or getattr(h["kw"].get("par_bounds"), "name", None) != "PB":
+                    probs.append(f"hypotest at {h['poi']} does not receive the caller's data, model and options (got options {sorted(h['kw'])})")
+                    break
+            if len(rec["interp"]) != 6:
+                probs.append(f"{len(rec['interp'])} interpolations, 6 curves")
+            for idx, (x, xp, fp) in enumerate(rec["interp"]):
+                want_xp = [f"cls{idx}<x{i}>" for i in (3, 2, 1, 0)]
+                want_fp = [f"x{i}" for i in (3, 2, 1, 0)]
+                fwd = (xp == want_xp[::-1] and fp == want_fp[::-1])  # increasing curves would be fine un-reversed; CLs falls
+                if x != ["LEVEL"] or not (xp == want_xp and fp == want_fp):
+                    probs.append(f"curve {idx}: interp({x}, {xp}, {fp}); every grid point and every value of that curve must enter, reversed together" + (" (not reversed: numpy.interp needs increasing xp)" if fwd else ""))
+                    break
+            if rr:
+                ok3 = isinstance(out, (tuple, list)) and len(out) == 3 and isinstance(out[2], (tuple, list)) and len(out[2]) == 2 and [str(to_poly(x)) for x in out[2][0]] == [f"x{i}" for i in range(4)] and len(out[2][1]) == 4
+                if not ok3:
+                    probs.append("with return_results the third element is not (the grid, the per-point results)")
+            elif not (isinstance(out, (tuple, list)) and len(out) == 2):
+                probs.append("without return_results the result is not (observed, expected)")
+            if isinstance(out, (tuple, list)) and len(out) >= 2 and not (str(to_poly(out[0])) == "LIMIT0" and [str(to_poly(x)) for x in out[1]] == [f"LIMIT{j}" for j in range(1, 6)]):
+                probs.append("observed / expected limits are not the interpolations of curve 0 / curves 1..5")
+            if probs:
+                ctx.violated(r5, lin, f"grid scan [return_results={rr}]", "the grid scan does not invert every CLs curve over the whole user-supplied grid at the caller's level with the caller's options: " + probs[0], found=f"{len(probs)} deviation(s)")
+            else:
+                ctx.holds(r5, site, "4 hypotests with the caller's inputs; 6 inversions over all 4 points; layout")
+        except errs as e:
+            ctx.unrecognised(r5, lin, f"linear_grid_scan [return_results={rr}]", f"not interpretable: {type(e).__name__}: {e}")
+    # ---------------------------------------------------------------- automatic
+    rec = {"hypotest": [], "interp": [], "toms748": []}
+    region = AutoRegion()
+    region.update({"LO": F_(0), "HI": F_(10), "LEVEL": F_(1, 20), "ATOL": F_(1, 100), "RTOL": F_(1, 100)})
+
+    def cls_auto(poi, region=region):
+        v = poi.evalf(region)
+        if v < 1:
+            return [F_(9, 10)] * 6
+        if v > 5:
+            return [F_(1, 1000)] * 6
+        return [F_(1, 2)] * 6
+
+    try:
+        w = mk_world(region, rec, cls_auto)
+        data_list = [at("d0"), at("d1")]
+        cfg = Obj("config", {"poi_name": "mu"})
+        MODEL = Obj("MODEL", {"config": cfg})
+        w.base[".suggested_bounds"] = lambda r_, a, k: [(at("LO"), at("HI")), (at("NLO"), at("NHI"))] if isinstance(r_, Obj) and r_.name == "config" else (_ for _ in ()).throw(NotHandled())
+        w.base[".par_slice"] = lambda r_, a, k: Obj("slice", {"start": Poly.const(0), "stop": Poly.const(1)}) if isinstance(r_, Obj) and r_.name == "config" else (_ for _ in ()).throw(NotHandled())
+        w.ext = None
+        opts = {"par_bounds": [(at("LO"), at("HI")), (at("PLO"), at("PHI"))], "test_stat": "q", "calctype": "asymptotics"}
+        out = w.call_func(ul, [data_list, MODEL], {"level": at("LEVEL"), "return_results": True, **opts})
+        probs = []
+        if not rec["hypotest"]:
+            probs.append("no hypotest evaluation at all")
+        for h in rec["hypotest"]:
+            kw = h["kw"]
+            missing = [o for o in opts if o not in kw]
+            if h["data"] is not data_list or h["model"] is not MODEL or kw.get("return_expected_set") is not True or missing:
+                probs.append(f"the hypotest at mu = {h['poi']} does not receive the caller's data, model and options" + (f": option(s) {missing} given to upper_limit are not passed on, so the limit solves CLs = level for a different test than the caller configured" if missing else ""))
+                break
+        tcs = rec["toms748"]
+        if len(tcs) != 6:
+            probs.append(f"{len(tcs)} root searches, expected 1 observed + 5 expected")
+        else:
+            if tcs[0]["bracket"] != ("LO", "HI") or tcs[0]["args"] != ["LEVEL", "0"]:
+                probs.append(f"observed root: bracket {tcs[0]['bracket']} args {tcs[0]['args']}, expected the POI bounds (LO, HI) and (LEVEL, 0)")
+            for j in range(1, 6):
+                if tcs[j]["args"] != ["LEVEL", str(j)]:
+                    probs.append(f"expected root {j}: args {tcs[j]['args']}, expected (LEVEL, {j})")
+                    break
+        if probs:
+            ctx.violated(r6, ul, "automatic scan", "the automatic scan does not solve CLs(mu) = level for the caller's hypothesis test: " + probs[0], found=f"{len(probs)} deviation(s)")
+        else:
+            ctx.holds(r6, f"{UL}::upper_limit -> toms748_scan [interpreted]", f"{len(rec['hypotest'])} hypotests with data, model, return_expected_set and all of {sorted(opts)}; 6 root searches with (level, k)")
+        # second call: same list object, refilled in place
+        n1 = len(rec["hypotest"])
+        data_list[0] = at("d0_new")
+        rec["toms748"].clear()
+        w.call_func(ul, [data_list, MODEL], {"level": at("LEVEL"), "return_results": True, **opts})
+        second = rec["hypotest"][n1:]
+        stale = [h for h in second if h["data_content"] != ["d0_new", "d1"]]
+        if len(second) < 2 or stale:
+            ctx.violated(r6, toms, "second scan after the data were refilled in place", f"the second scan evaluated hypotest {len(second)} time(s) on the current data (the first scan needed {n1}): per-point results remembered from an earlier call are reused although the data changed -- the limit is the previous dataset's", expected=f">= 2 fresh evaluations on ['d0_new', 'd1']", found=f"{len(second)} evaluation(s)")
+        else:
+            ctx.holds(r6, f"{UL}::toms748_scan [second call, data refilled in place]", f"{len(second)} fresh hypotest evaluations on the current data")
+    except errs as e:
+        ctx.unrecognised(r6, ul, "upper_limit (automatic)", f"not interpretable: {type(e).__name__}: {e}")
